@@ -92,7 +92,8 @@ else:
         return int.from_bytes(bytes(octets), 'big', signed=signed)
 
     def to_bytes(value, signed=False, length=0):
-        length = max(value.bit_length(), length)
+        # the two's complement of a negative number needs as many bits as its complement
+        length = max((~value if signed and value < 0 else value).bit_length(), length)
 
         if signed and length % 8 == 0:
             length += 1
